@@ -121,7 +121,12 @@ Ltac destr_match H :=
       | _ => tryif is_var x then destruct x else destruct x eqn:?
       end
   end.
-Ltac break_all H := repeat (first [discriminate H | destr_match H]).
+(* fallback: a discriminee that itself contains a match under a binder (e.g. the log-limit test) *)
+Ltac destr_any H :=
+  match type of H with
+  | context [match ?x with _ => _ end] => tryif is_var x then destruct x else destruct x eqn:?
+  end.
+Ltac break_all H := repeat (first [discriminate H | destr_match H | destr_any H]).
 
 Lemma alookup_typed : forall (fty : string -> ty) l f v,
   fields_typed fty l -> alookup String.eqb f l = Some v -> has_ty v (fty f).
